@@ -10,6 +10,7 @@ import live as L
 import mirror as MR
 import translate_pools as TP
 
+ESCALATE = True     # cheap thorough tier: run it whenever an anchor file differs from the pinned fingerprint
 RULE = ("crossovers / flip / binomial: ALL outcomes of the random draws enumerated in script mode on labelled "
         "parents (gene = 10*parent+locus, so the donor of every locus is observable) for small lengths; seeded "
         "compiled runs vs log-mode mirror vs model; harvested: every _get_new_individ_g call of live GA / SelfCGA / "
